@@ -18,4 +18,5 @@ var Registry = map[string]func(args []string){
 	"wire-mutations": WireMutations,
 	"wire-case": WireCase,
 	"paths-jail": PathsJail,
+	"scan-check": ScanCheck,
 }
